@@ -176,6 +176,11 @@ func c09Line(work, line string, yml bool, tag string, lineNo int, r *rng, every,
 					shadowLost++
 					emit(jobj{"k": "shadow-lost", "line": lineNo, "zeit": zeit, "why": "parameter read differs"})
 				}
+				if tr.active && tr.akf == ai && tr.sow < zeit {
+					// the crop of this rotation position was sown before and has not been harvested: sowing it again throws the
+					// standing crop back to stage 1 (development runs backwards)
+					ofail(g, zeit, "stage-decreased", "resown-while-standing first-sowing=%s stage-before=%d stage-now=%d", g.Kalender(tr.sow), tr.lastIdx+1, g.INTWICK.Index+1)
+				}
 				tr = cropTrack{akf: ai, sow: zeit, lastIdx: g.INTWICK.Index, active: true, crop: crop, variety: pre.CVARIETY[ai]}
 				tr.stages[0] = zeit
 				if g.INTWICK.Index > 0 {
@@ -367,6 +372,20 @@ func c09Line(work, line string, yml bool, tag string, lineNo int, r *rng, every,
 			}
 			tied++
 			if grown && growing {
+				// hypothesis of C09_assimilation_nonneg_partial: the sunshine duration / radiation of the day handed to radia()
+				// is a valid non-negative value; conclusion: the assimilates of the day GTW = GPHOT + ASPOO are >= 0
+				sund, rad := pre.SUND[pre.TAG.Index], pre.RAD[pre.TAG.Index]
+				if !finite(sund) || sund < 0 || sund > 24 {
+					ofail(g, zeit, "sunshine-input-invalid", "SUND=%v RAD=%v", sund, rad)
+				}
+				if !finite(rad) || rad < 0 {
+					ofail(g, zeit, "radiation-input-invalid", "RAD=%v SUND=%v", rad, sund)
+				}
+				if !finite(gtw) {
+					ofail(g, zeit, "GTW-not-finite", "value=%v", gtw)
+				} else if gtw < 0 {
+					ofail(g, zeit, "GTW-negative", "value=%v SUND=%v RAD=%v ASPOO=%v", gtw, sund, rad, pre.ASPOO)
+				}
 				c09GrowthOracle(&pre, g, &shadow, gtw, mterm, k1, isZRK(ct), maxup, cnt, mass, diff,
 					func(what string, format string, a ...interface{}) { ofail(g, zeit, what, format, a...) })
 			}
